@@ -12,7 +12,7 @@ from __future__ import annotations
 
 import re
 
-DECL_RE = re.compile(r"^(?:const\s+)?(?:RzILOpPure|RzILOpEffect|HexOp|HexInsn|HexPkt)\s+\*?\s*(\w+)\s*=", re.M)
+DECL_RE = re.compile(r"^(?:const\s+)?(?:RzILOpPure|RzILOpEffect|HexOp|HexInsn|HexPkt)\s*\*?\s*(\w+)\s*=", re.M)
 ILNAME_RE = re.compile(r"\b(SETL|VARL|VARLP|LET|SETG|VARG)\(\"(\w+)\"")
 SPECIAL = {"ret_val", "jump_flag", "jump_target"}
 WORD = re.compile(r"[A-Za-z_]\w*")
